@@ -349,7 +349,7 @@ enum Ctor {
     Unencrypted,
 }
 
-fn matrix(prop: &str, i: u64, rng: &mut Rng, out: &mut Outcome, dir: &Path) {
+pub fn matrix(prop: &str, i: u64, rng: &mut Rng, out: &mut Outcome, dir: &Path) {
     ensure_keyring();
     let sub = dir.join(format!("mx{i}"));
     let _ = std::fs::create_dir_all(&sub);
@@ -397,6 +397,14 @@ fn matrix(prop: &str, i: u64, rng: &mut Rng, out: &mut Outcome, dir: &Path) {
             });
             let case = format!("{fs:?} x {ct:?}");
             out.count("matrix_cases");
+            if let Ok(Err(e)) = &r {
+                crate::capture::error("sqlite-constructor", e);
+            }
+            crate::capture::secret("database-key", &k1);
+            crate::capture::secret("database-key", &k2);
+            if let Some(k) = keyring_secret(&service, &key_id) {
+                crate::capture::secret("database-key", &k);
+            }
             let r = match r {
                 Ok(r) => r,
                 Err(_) => {
